@@ -8,11 +8,13 @@ TB = "Coq 8.16.1 kernel and vm_compute; hand-written Gallina model tied to /repo
 
 import importlib, sys
 sys.path.insert(0, os.path.join(HERE, "tools"))
+# properties whose check is integrated (fixes applied to /repo, check passes on the unchanged tree)
+READY = {"C02", "C04", "C06", "C07", "C08", "C09", "C11", "C12", "C13", "C14", "C15", "C17", "C19", "C20"}
 CLAIMS = {}
 for pid in ALL:
     if os.path.exists(os.path.join(HERE, "tools", "props", pid.lower() + ".py")):
         m = importlib.import_module("props." + pid.lower())
-        if getattr(m, "CLAIM", None):
+        if getattr(m, "CLAIM", None) and pid in READY:
             CLAIMS[pid] = m.CLAIM
 
 def main():
@@ -53,6 +55,6 @@ def main():
     json.dump(man, open(os.path.join(HERE, "MANIFEST.json"), "w"), indent=1, ensure_ascii=False)
 
 NA = {}
-HOOK_COMMITS = ["50fafb3"]
+HOOK_COMMITS = ["50fafb3", "62ace41"]
 if __name__ == "__main__":
     main()
